@@ -69,7 +69,7 @@ func runC05(c *Ctx) {
 	getChanA := w.Func("allocation", "Allocation", "GetChannelByAddr")
 	turn := w.Field("allocation", "Allocation", "TurnSocket")
 	nSites := 0
-	w.eachInstr(pch, func(in ssa.Instruction) {
+	w.eachInstrDeep(pch, func(in ssa.Instruction) {
 		call, ok := in.(*ssa.Call)
 		if !ok || !call.Call.IsInvoke() || call.Call.Method.Name() != "WriteTo" {
 			return
